@@ -20,3 +20,173 @@ def c15_time_to_hours():
     from astral import time_to_hours
     v = time_to_hours(datetime.time(1, 30, 0, 500000))
     return abs(v - (1.5 + 0.5 / 3600)) > 1e-12, "time_to_hours(01:30:00.5) = %r" % v
+
+
+# ---- fixed findings: each witness must PASS on the repaired tree ------------------------
+def _tokyo():
+    import zoneinfo
+    from astral import Observer
+    return Observer(35.68, 139.69, 0.0), zoneinfo.ZoneInfo("Asia/Tokyo"), datetime.date(2021, 6, 21)
+
+
+def c03_tae_tokyo():
+    from astral import sun, SunDirection
+    o, tz, d = _tokyo()
+    t = sun.time_at_elevation(o, 6.0, d, SunDirection.RISING, tz)
+    return t.date() != d, "time_at_elevation(+6, rising, Tokyo 2021-06-21, JST) = %s" % t
+
+
+def c07_twilight_tokyo():
+    from astral import sun, SunDirection
+    o, tz, d = _tokyo()
+    s, e = sun.twilight(o, d, SunDirection.RISING, tz)
+    bad = not (s < e) or (s, e) != (sun.dawn(o, d, 6, tz), sun.sunrise(o, d, tz))
+    return bad, "twilight(Tokyo 2021-06-21 rising) = (%s, %s)" % (s, e)
+
+
+def c05_noon_apia():
+    import zoneinfo
+    from astral import Observer, sun
+    t = sun.noon(Observer(-13.83, -171.83), datetime.date(2021, 6, 21), zoneinfo.ZoneInfo("Pacific/Apia"))
+    return t.date() != datetime.date(2021, 6, 21), "noon(Apia, 2021-06-21, Pacific/Apia) = %s" % t
+
+
+def c05_midnight_180():
+    from astral import Observer, sun
+    d = datetime.date(2021, 11, 3)
+    t = sun.midnight(Observer(0, 179.9), d)
+    dist = abs((t - datetime.datetime(2021, 11, 3, tzinfo=datetime.timezone.utc)).total_seconds()) / 3600
+    return dist > 12.02, "midnight(lon 179.9, 2021-11-03, UTC) = %s, %.2f h from 00:00" % (t, dist)
+
+
+def c08_kiritimati():
+    import zoneinfo
+    from astral import Observer, sun
+    o = Observer(1.87, -157.4)
+    t = datetime.datetime(2021, 6, 21, 0, 30, tzinfo=zoneinfo.ZoneInfo("Pacific/Kiritimati"))
+    a, b = sun.azimuth(o, t), sun.azimuth(o, t.astimezone(datetime.timezone.utc))
+    return abs(a - b) > 1e-6, "azimuth at Kiritimati 2021-06-21 00:30+14: %r vs %r in UTC" % (a, b)
+
+
+def c12_aware_moon():
+    from astral import Observer, moon
+    o = Observer(51.5, -0.12)
+    t = datetime.datetime(2022, 10, 10, 20, 0, tzinfo=datetime.timezone(datetime.timedelta(hours=9)))
+    a, b = moon.azimuth(o, t), moon.azimuth(o, t.astimezone(datetime.timezone.utc))
+    return abs(a - b) > 1e-6, "moon.azimuth for 20:00+09:00: %r vs %r for the same instant in UTC" % (a, b)
+
+
+def c12_azimuth_360():
+    from astral import Observer, moon
+    a = moon.azimuth(Observer(84.05580536191206, 141.516442547719), datetime.datetime(2072, 7, 12, 11, 34, 51))
+    return not (0.0 <= a < 360.0), "moon.azimuth = %r" % a
+
+
+def c14_hour_24():
+    from astral import Observer, moon
+    try:
+        moon.moonset(Observer(32.24, 127.15), datetime.date(2019, 7, 6),
+                     datetime.timezone(datetime.timedelta(hours=13)))
+        return False, "returns"
+    except ValueError as exc:
+        return not str(exc).startswith("Moon never"), "moonset raised ValueError(%s)" % exc
+
+
+def c14_utc_day_only():
+    from astral import Observer, moon
+    o = Observer(15.08762348125532, -114.59927932358266)
+    try:
+        t = moon.moonrise(o, datetime.date(2021, 5, 24), datetime.timezone(datetime.timedelta(hours=10)))
+        return t is None, "moonrise = %s" % t
+    except ValueError as exc:
+        return True, "moonrise raised %s although the local date has a moonrise" % exc
+
+
+def c19_cli():
+    import subprocess
+    import sys
+    p = subprocess.run([sys.executable, "-m", "astral", "-d", "2021-06-21", "--", "51.5", "-0.12"],
+                       stdout=subprocess.PIPE, stderr=subprocess.PIPE, timeout=60)
+    return p.returncode != 0, "python -m astral exit status %d" % p.returncode
+
+
+def c18_rows():
+    import astral.geocoder as geo
+    db = geo.database()
+    bad = []
+    for name, want_sign in (("Al Jubail", 1), ("Sana", 1), ("Sana'a", 1), ("Nouakchott", -1), ("Avarua", -1)):
+        r = geo.lookup(name, db)
+        if (r.longitude > 0) != (want_sign > 0):
+            bad.append(name)
+    av = geo.lookup("Avarua", db)
+    if av.timezone == "Etc/GMT-10" or av.latitude > 0:
+        bad.append("Avarua zone/latitude")
+    return bool(bad), "rows still wrong: %s" % bad
+
+
+def c20_tuple_overflow():
+    from astral import Observer, sun
+    for el in ((1e300, 1.0), (1e-200, 0.0)):
+        try:
+            sun.sunrise(Observer(10, 10, el), datetime.date(2020, 1, 1))
+        except ValueError:
+            pass
+        except Exception as exc:  # noqa: BLE001
+            return True, "sunrise with elevation %r raised %r" % (el, exc)
+    return False, "no non-ValueError"
+
+
+def c17_group_shadowed():
+    import astral.geocoder as geo
+    db = geo.database()
+    geo.add_locations([("Europe", "X", "Africa/Lagos", "1", "1")], db)
+    r = geo.lookup("Europe", db)
+    return not isinstance(r, dict), "lookup('Europe') returned %s" % type(r).__name__
+
+
+def c07_rahukaalam_dst():
+    import zoneinfo
+    from astral import Observer, sun
+    ny, tz = Observer(40.71, -74.0), zoneinfo.ZoneInfo("America/New_York")
+    d = datetime.date(2021, 11, 6)
+    u = datetime.timezone.utc
+    ss = sun.sunset(ny, d, tz).astimezone(u)
+    sr = sun.sunrise(ny, d + datetime.timedelta(days=1), tz).astimezone(u)
+    r = sun.rahukaalam(ny, d, False, tz)
+    length = r[1].astimezone(u) - r[0].astimezone(u)
+    return abs(length - (sr - ss) / 8) > datetime.timedelta(seconds=2), \
+        "night rahukaalam on the DST night 2021-11-06 lasts %s, an eighth of the span is %s" % (length, (sr - ss) / 8)
+
+
+# ---- known findings: each witness must still FAIL as recorded ---------------------------
+def c04_n3_polar():
+    from astral import Observer, sun
+    try:
+        sun.sunrise(Observer(89.0, 0.0, 20000.0), datetime.date(2021, 3, 12))
+        return False, "returns a time"
+    except ValueError as exc:
+        return "always below" in str(exc), "sunrise(lat 89, 20 km, 2021-03-12): %s (the sun stays above the dipped horizon all day)" % exc
+
+
+def c04_d11_dhaka():
+    import zoneinfo
+    from astral import Observer, sun
+    try:
+        sun.sunrise(Observer(23.7, 90.4), datetime.date(2021, 3, 23), zoneinfo.ZoneInfo("Asia/Dhaka"))
+        return False, "returns a time"
+    except ValueError as exc:
+        return "Unable to find" in str(exc), "sunrise(Dhaka, 2021-03-23): %s (sunrise is at 05:59 that day)" % exc
+
+
+def c10_feature():
+    from astral import sun
+    a = sun.adjust_to_obscuring_feature((0.001, 1000.0))
+    return a > 45.0, "adjust_to_obscuring_feature((0.001, 1000)) = %r degrees (level: 0)" % a
+
+
+def c10_kink():
+    from astral import Observer, sun
+    d = datetime.date(2000, 7, 23)
+    a = sun.sunrise(Observer(-2.5345926091322895, -147.56391209404595, 92.0485), d)
+    b = sun.sunrise(Observer(-2.5345926091322895, -147.56391209404595, 92.0560), d)
+    return b > a, "sunrise at 92.0560 m is %s, at 92.0485 m %s" % (b, a)
